@@ -332,6 +332,8 @@ func checkHistory(plan Plan, ops []HOp, res *histResult, reuse bool) []finding {
 
 // ---------- API-level executor ----------
 
+var procStart = time.Now().UTC()
+
 type apiExec struct {
 	realClock bool // C16: cut-offs are real clock readings between operations
 }
@@ -351,7 +353,11 @@ func (x apiExec) run(plan Plan, ops []HOp) *histResult {
 	tr := sessiontracker.NewSessionTracker(rec.Writer(), nil)
 	res := &histResult{emitted: make([][]vlib.Call, len(ops)), err: make([]error, len(ops))}
 	far := time.Date(2100, 1, 1, 0, 0, 0, 0, time.UTC)
-	past := time.Date(1980, 1, 1, 0, 0, 0, 0, time.UTC)
+	// "older than every arrival": every arrival of this process happened after
+	// procStart, whereas the audit records' own timestamps lie in 2022 - a
+	// correlator that aged entries by record time instead of arrival time
+	// would lose them here.
+	past := procStart.Add(-time.Second)
 	stamps := make([]time.Time, len(ops)) // reading taken after op i (realClock)
 	last := time.Now().UTC()
 	for i, op := range ops {
@@ -360,7 +366,7 @@ func (x apiExec) run(plan Plan, ops []HOp) *histResult {
 		seq := uint32(1000 + i)
 		switch op.Kind {
 		case opLogin:
-			at := time.Date(2000, 1, 1, 0, 0, 0, 0, time.UTC)
+			at := time.Now().UTC() // as the sshd processor stamps it
 			if x.realClock {
 				last = nowAdvance(last)
 				at = last
@@ -375,7 +381,13 @@ func (x apiExec) run(plan Plan, ops []HOp) *histResult {
 			if t == 0 {
 				t = auparse.AUDIT_USER_CMD
 			}
-			res.err[i] = tr.AuditdEvent(vlib.APIEvent(plan.Sid[op.K], t, strconv.Itoa(plan.Pid[op.K]+10000), ts, seq, "success"))
+			// PAM records (USER_*, CRED_*) come from the session's sshd process
+			// itself and carry its pid; commands run by the user carry another.
+			epid := plan.Pid[op.K] + 10000
+			if strings.HasPrefix(op.Typ, "USER_") && op.Typ != "USER_CMD" || strings.HasPrefix(op.Typ, "CRED_") {
+				epid = plan.Pid[op.K]
+			}
+			res.err[i] = tr.AuditdEvent(vlib.APIEvent(plan.Sid[op.K], t, strconv.Itoa(epid), ts, seq, "success"))
 		case opCD:
 			res.err[i] = tr.AuditdEvent(vlib.APIEvent(plan.Sid[op.K], auparse.AUDIT_CRED_DISP, strconv.Itoa(plan.Pid[op.K]), ts, seq, "success"))
 		case opNoSess:
